@@ -134,6 +134,26 @@ class FlatSet : private Compare {
   template <class InputIt>
   FlatSet(InputIt first, InputIt last, const Alloc &alloc) : FlatSet(first, last, Compare(), alloc) {}
 
+  FlatSet(const FlatSet &) = default;
+  FlatSet(FlatSet &&) = default;
+  FlatSet &operator=(FlatSet &&) = default;
+  ~FlatSet() = default;
+
+  /// Copy assignment: if copying an element throws, the underlying vector holds a mix of old and new elements which
+  /// is not sorted any more. Come back to a valid (empty) set in this case.
+  FlatSet &operator=(const FlatSet &o) {
+    if (this != &o) {
+      try {
+        compRef() = o.compRef();
+        _sortedVector = o._sortedVector;
+      } catch (...) {
+        _sortedVector.clear();
+        throw;
+      }
+    }
+    return *this;
+  }
+
   FlatSet(const FlatSet &o, const Alloc &alloc) : Compare(o.key_comp()), _sortedVector(o._sortedVector, alloc) {}
 
   FlatSet(FlatSet &&o, const Alloc &alloc) : Compare(o.key_comp()), _sortedVector(std::move(o._sortedVector), alloc) {}
